@@ -259,6 +259,14 @@ fn download(dir: &PathBuf, len: usize, ws: u16, rep: u8, fault: Fault, verdict: 
             break;
         }
     }
+    // C08 (window bound, cumulative ACK): with a conformant peer and no fault every acknowledgement arrives in time, so every
+    // block goes out exactly once (x repeat); anything more was sent without a time-out or a gap to justify it
+    if fault == Fault::None {
+        let n_data = sh.emitted.iter().filter(|p| matches!(p, Packet::Data { .. })).count() as u64;
+        if n_data > nblocks * rep as u64 {
+            verdict.violations.push(("C08", format!("{ctx}: {} DATA datagrams for {} blocks although no datagram was lost: blocks were sent again after they had been acknowledged", n_data, nblocks)));
+        }
+    }
     // C04 / C07: with a conformant peer and a single fault the transfer must have delivered the whole file
     if expected != nblocks + 1 || client_copy != data {
         verdict.violations.push(("C04", format!("{ctx}: transfer did not deliver the file (client has {} of {} blocks)", expected - 1, nblocks)));
@@ -648,6 +656,14 @@ fn main() {
             download(&dir, len, 4, 1, f.clone(), &mut verdict, "sender-wrap");
             runs += 1;
             upload(&dir, len, 4, 1, f, &mut verdict, "receiver-wrap");
+        }
+    }
+    // windows of more than 32768 blocks (C08: the whole 16-bit range of window sizes)
+    if which == "all" || which == "C08" {
+        let len = 65546 * BLK - 3;
+        for ws in [32769u16, 65535] {
+            runs += 1;
+            download(&dir, len, ws, 1, Fault::None, &mut verdict, "sender-bigwindow");
         }
     }
     if which == "all" || which == "C09" {
